@@ -42,6 +42,7 @@ impl Rep {
 pub fn run(obligation: &str) -> i32 {
     let mut rep = Rep::new();
     std::panic::set_hook(Box::new(|_| {}));   // panics of the code under contract are reported as outcomes, not printed
+    if ["C03.format_tag", "C06.width_to_tokens", "C04.format_range_annotations", "lemma.GEN_emission"].iter().any(|p| obligation.starts_with(p)) { gen_emission(&mut rep); return rep.finish("GEN_emission"); }
     if obligation.starts_with("C03.") { c03_apply_tagenv(&mut rep); return rep.finish("C03_apply_tagenv"); }
     if ["C02.link_components_of", "C05.link_components_of", "C02.has_components_of", "C05.lemma.", "C02.lemma."].iter().any(|p| obligation.starts_with(p)) { c02_components_of(&mut rep); return rep.finish("C02_components_of"); }
     if obligation.starts_with("C02.needs_unnesting") { c02_needs_unnesting(&mut rep); return rep.finish("C02_unnesting"); }
@@ -59,6 +60,68 @@ pub fn run(obligation: &str) -> i32 {
     if obligation.starts_with("C06.") { c06_integer_constraints(&mut rep); return rep.finish("C06.integer_constraints"); }
     println!("REPLAY-NOTE no native replay registered for {obligation}");
     0
+}
+
+// ---------------------------------------------------------------------------------------------- GEN_emission
+/// Native replay of unit GEN_emission: the three emission functions on the real crate, token text compared white-space-free.
+/// (This also exercises what rules D19 / D20 drop: that quote! / format! render the chosen template as the expected text.)
+fn gen_emission(rep: &mut Rep) {
+    use rasn_compiler::verif_hooks::{hook_format_range_annotations, hook_format_tag, hook_per_visible_range, hook_width_tokens};
+    let nows = |s: &str| s.chars().filter(|c| !c.is_whitespace()).collect::<String>();
+    // format_tag: every class x every resolved mode x boundary numbers
+    rep.check("C03.format_tag.no_tag_no_annotation", hook_format_tag(None).is_empty(), || "tag=None".into());
+    for (tc, word) in [(TagClass::Universal, "universal"), (TagClass::Application, "application"), (TagClass::Private, "private"), (TagClass::ContextSpecific, "context")] {
+        for env in [TaggingEnvironment::Automatic, TaggingEnvironment::Implicit, TaggingEnvironment::Explicit] {
+            for id in [0u64, 1, 30, 31, 127, 128, 16383, u32::MAX as u64, u32::MAX as u64 + 1, u64::MAX - 1, u64::MAX] {
+                let got = nows(&hook_format_tag(Some(&AsnTag { environment: env, tag_class: tc, id })));
+                let want = if env == TaggingEnvironment::Explicit { format!("tag(explicit({word},{id}))") } else { format!("tag({word},{id})") };
+                rep.check("C03.format_tag.class_number_and_explicit_form_exactly_for_an_explicit_tag", got == want, || format!("tag=[{word} {id}] resolved_mode={env:?} -> {got}"));
+            }
+        }
+    }
+    // ToTokens for IntegerType
+    for (t, word) in [(IntegerType::Int8, "i8"), (IntegerType::Uint8, "u8"), (IntegerType::Int16, "i16"), (IntegerType::Uint16, "u16"), (IntegerType::Int32, "i32"),
+                      (IntegerType::Uint32, "u32"), (IntegerType::Int64, "i64"), (IntegerType::Uint64, "u64"), (IntegerType::Unbounded, "Integer")] {
+        let got = nows(&hook_width_tokens(t));
+        rep.check("C06.width_to_tokens.appends_exactly_the_type_keyword_of_the_width", got == word, || format!("width={t:?} -> {got}"));
+    }
+    // format_range_annotations: lists of 0..=2 constraints (value ranges, single values, SIZE), signed / unsigned, markers
+    rep.check("C04.format_range_annotations.no_constraint_no_annotation", matches!(hook_format_range_annotations(true, &[]), Ok(t) if t.is_empty()) && matches!(hook_format_range_annotations(false, &[]), Ok(t) if t.is_empty()), || "constraints=[]".into());
+    const PTS: [i128; 9] = [i128::MIN, -(1 << 63) - 1, -129, -1, 0, 5, 256, 1 << 64, i128::MAX];
+    let mut elems: Vec<(SubtypeElements, String)> = vec![];
+    for x in [false, true] {
+        let m = if x { ", ..." } else { "" };
+        for v in PTS { elems.push((SubtypeElements::SingleValue { value: ASN1Value::Integer(v), extensible: x }, format!("{v}{m}"))); }
+        for (i, lo) in std::iter::once(None).chain(PTS.iter().map(|v| Some(*v))).enumerate() { for (j, hi) in std::iter::once(None).chain(PTS.iter().map(|v| Some(*v))).enumerate() {
+            if let (Some(l), Some(h)) = (lo, hi) { if l > h { continue; } }
+            if (i + 2 * j) % 3 == 1 && x { continue; }
+            elems.push((SubtypeElements::ValueRange { min: lo.map(ASN1Value::Integer), max: hi.map(ASN1Value::Integer), extensible: x },
+                format!("{}..{}{m}", lo.map_or("MIN".to_string(), |v| v.to_string()), hi.map_or("MAX".to_string(), |v| v.to_string()))));
+        } }
+    }
+    let mut cons: Vec<(Constraint, String)> = vec![];
+    for (e, t) in &elems { for outer in [false, true] {
+        cons.push((Constraint::Subtype(ElementSetSpecs { set: ElementOrSetOperation::Element(e.clone()), extensible: outer }), format!("({t}{})", if outer { ", ..." } else { "" })));
+        if !matches!(e, SubtypeElements::SingleValue { value: ASN1Value::Integer(v), .. } | SubtypeElements::ValueRange { min: Some(ASN1Value::Integer(v)), .. } if *v < 0) {
+            cons.push((Constraint::Subtype(ElementSetSpecs { set: ElementOrSetOperation::Element(SubtypeElements::SizeConstraint(Box::new(ElementOrSetOperation::Element(e.clone())))), extensible: outer }), format!("(SIZE({t}){})", if outer { ", ..." } else { "" })));
+        }
+    } }
+    let mut lists: Vec<Vec<usize>> = (0..cons.len()).map(|i| vec![i]).collect();
+    for i in (0..cons.len()).step_by(7) { for j in (0..cons.len()).step_by(11) { lists.push(vec![i, j]); } }
+    for l in &lists { for signed in [false, true] {
+        let cs: Vec<Constraint> = l.iter().map(|i| cons[*i].0.clone()).collect();
+        let folded = hook_per_visible_range(signed, &cs);
+        let got = hook_format_range_annotations(signed, &cs);
+        let d = || format!("signed={signed} {} folded={folded:?} -> {got:?}", l.iter().map(|i| cons[*i].1.clone()).collect::<Vec<_>>().join(""));
+        rep.check("C04.format_range_annotations.fails_only_when_the_folding_fails", got.is_ok() == folded.is_ok(), d);
+        if let (Ok(text), Ok((lo, hi, ext, size))) = (&got, &folded) {
+            let want = if (*size && !*ext && *lo == Some(0) && hi.is_none()) || (lo.is_none() && hi.is_none()) { String::new() } else {
+                let range = match (lo, hi) { (Some(a), Some(b)) if a == b => format!("{a}"), (Some(a), Some(b)) => format!("{a}..={b}"), (Some(a), None) => format!("{a}.."), (None, Some(b)) => format!("..={b}"), _ => unreachable!() };
+                format!("{}(\"{range}\"{})", if *size { "size" } else { "value" }, if *ext { ",extensible" } else { "" })
+            };
+            rep.check("C04.format_range_annotations.prefix_both_ends_and_extensible_exactly_as_folded", nows(text) == want, d);
+        }
+    } }
 }
 
 // ---------------------------------------------------------------------------------------------- C06
